@@ -298,6 +298,22 @@ class Body:
             self._dom = idom
         return self._dom
 
+    def loop_headers_containing(self, bb):
+        """Headers of the natural loops whose body contains block `bb` (a back edge p -> h with h dominating p, and `bb` reaches p
+        without passing through h)."""
+        out = set()
+        pred = self.pred
+        for h in range(len(self.blocks)):
+            if not self.dominates(h, bb):
+                continue
+            backs = [p for p in pred[h] if self.dominates(h, p)]
+            if not backs:
+                continue
+            reach = self.reachable_from(bb, cut={h}) if bb != h else set(range(len(self.blocks)))
+            if any(p == bb or p in reach for p in backs):
+                out.add(h)
+        return out
+
     def dominates(self, a, b):
         """block a dominates block b"""
         idom = self.dom
